@@ -510,6 +510,36 @@ def plant_i_to_l(anno, genome, rng: random.Random, n: int = 2):
     return out
 
 
+def tag_cds_start_nf(case: Case, rng: random.Random) -> List[str]:
+    """after duplicate_isoforms: tag the ORIGINAL isoform of some coding genes `cds_start_NF` (its
+    twin `<tx>B`, listed later in the proteome, stays complete): two identical proteins, the first
+    one without the Met-removed forms, the second one with them"""
+    lines = open(case.gtf).read().split('\n')
+    txs = []
+    for ln in lines:
+        f = ln.split('\t')
+        if len(f) > 8 and f[2] == 'transcript' and 'is_protein_coding true' in f[8] \
+                and 'cds_start_NF' not in f[8]:
+            tx = [a.strip().split(' ')[1] for a in f[8].split(';') if a.strip().startswith('transcript_id')][0]
+            if not tx.endswith('B') and not tx.endswith('N'):
+                txs.append(tx)
+    chosen = [t for t in txs if rng.random() < 0.6]
+    if not chosen:
+        return []
+    out = []
+    for ln in lines:
+        f = ln.split('\t')
+        if len(f) > 8:
+            tx = [a.strip().split(' ')[1] for a in f[8].split(';') if a.strip().startswith('transcript_id')]
+            if tx and tx[0] in chosen and 'cds_start_NF' not in f[8]:
+                ln = ln.replace(' gene_type ', ' tag cds_start_NF; gene_type ', 1) if ' gene_type ' in ln \
+                    else ln + ' tag cds_start_NF;'
+        out.append(ln)
+    with open(case.gtf, 'wt') as fh:
+        fh.write('\n'.join(out))
+    return chosen
+
+
 def duplicate_isoforms(case: Case, records):
     """Give every gene a second, identical isoform (<tx>B) in GTF + proteome and
     duplicate every small-variant record for it, so that two transcripts of one batch
